@@ -1,5 +1,337 @@
-(* Eval13.v — evaluation of C13 observations (stub: replaced when C13 is built). *)
-From Verif Require Import Base Sexp.
+(* Eval13.v — evaluation of C13 observations: the generated deriveSort / deriveKeys /
+   deriveMin / deriveMax on real inputs against the models of Ord/Model.v and against the
+   specification predicates evaluated on the REAL output:
+     sort:   output is a permutation of the input (multiset under structural equality) and no
+             later element precedes an earlier one under the order the model says is used;
+     keys:   every key of the map occurs exactly once (counted with ==), nothing else;
+     min/max: the result is (structurally) an element of the list that no element precedes
+             (follows), the default for the empty list; two-value forms likewise.
+   Real and model outputs are compared up to the order's equivalence (sort.Slice is not stable;
+   the map iteration order is free). *)
+From Coq Require Import String.
+From Verif Require Import Base Sexp Go.Ty Go.Val Go.Equal Go.Compare Go.CompareSpec
+  Ord.Sorter Ord.Model.
 Open Scope string_scope.
 
-Definition eval13 (e : sexp) : verdict := bad_line.
+Definition seq (t : ty) (x y : val) : bool :=
+  match spec_eq [] t x y with Some true => true | _ => false end.
+
+Fixpoint remove1 {A} (p : A -> bool) (l : list A) : option (list A) :=
+  match l with
+  | [] => None
+  | a :: l' => if p a then Some l' else option_map (cons a) (remove1 p l')
+  end.
+(* equal as multisets, for an equivalence [eqb] *)
+Fixpoint multiset_eq {A} (eqb : A -> A -> bool) (l1 l2 : list A) : bool :=
+  match l1 with
+  | [] => match l2 with [] => true | _ => false end
+  | a :: l1' => match remove1 (eqb a) l2 with
+                | Some l2' => multiset_eq eqb l1' l2'
+                | None => false
+                end
+  end.
+
+Fixpoint sorted_b (le : val -> val -> bool) (l : list val) : bool :=
+  match l with
+  | [] => true
+  | a :: l' => (forallb (le a) l' && sorted_b le l')%bool
+  end.
+Fixpoint has_dup (eqv : val -> val -> bool) (l : list val) : bool :=
+  match l with
+  | [] => false
+  | a :: l' => (existsb (eqv a) l' || has_dup eqv l')%bool
+  end.
+
+Definition elems (v : val) : option (list val) :=
+  match v with VNilS => Some [] | VSl _ es _ => Some es | _ => None end.
+Definition is_nil_sl (v : val) : bool := match v with VNilS => true | _ => false end.
+Definition is_ok {A} (r : res A) : bool := match r with Ok _ => true | _ => false end.
+Definition is_false (r : res bool) : bool := match r with Ok false => true | _ => false end.
+
+Fixpoint sexp_of_val (v : val) : sexp :=
+  let b2z (b : bool) := Num (if b then 1 else 0)%Z in
+  match v with
+  | VBool b => L [Sym "b"; b2z b]
+  | VInt z => L [Sym "i"; Num z]
+  | VF n m => L [Sym "f"; b2z n; Num (Z.of_N m)]
+  | VC a b c d => L [Sym "c"; b2z a; Num (Z.of_N b); b2z c; Num (Z.of_N d)]
+  | VStr s => L (Sym "s" :: map (fun x => Num (Z.of_N x)) s)
+  | VNilP => Sym "nilp"
+  | VPtr l x => L [Sym "p"; Num (Z.of_N l); sexp_of_val x]
+  | VNilS => Sym "nils"
+  | VSl l es sp => L [Sym "sl"; Num (Z.of_N l); L (map sexp_of_val es); L (map sexp_of_val sp)]
+  | VNilM => Sym "nilm"
+  | VMap l kvs => L [Sym "m"; Num (Z.of_N l); L (map (fun kv => L [sexp_of_val (fst kv); sexp_of_val (snd kv)]) kvs)]
+  | VArr es => L (Sym "a" :: map sexp_of_val es)
+  | VSt fs => L (Sym "st" :: map sexp_of_val fs)
+  end.
+Definition vres_sexp (r : res val) : sexp :=
+  match r with
+  | Ok v => L [Sym "ret"; sexp_of_val v]
+  | Pan => Sym "panic" | Unsup => Sym "unsupported" | Stuck => Sym "stuck"
+  end.
+
+Definition get_ret (e : sexp) : option sexp :=
+  match e with L [Sym s; v] => if String.eqb s "ret" then Some v else None | _ => None end.
+(* (res (ret V) (same 0|1)) *)
+Definition get_res (e : sexp) : option (sexp * bool) :=
+  match e with
+  | L [Sym s; r; L [Sym s2; Num n]] =>
+      if (String.eqb s "res" && String.eqb s2 "same")%bool then
+        match get_ret r with Some v => Some (v, Z.eqb n 1) | None => None end
+      else None
+  | _ => None
+  end.
+
+Definition node_tag (t : ty) : string :=
+  match resolve [] t with
+  | Some r =>
+      (if is_named r then "named-" else "") ++
+      match r_node r with
+      | TB k => match k with KBool => "bool" | KInt _ _ => "int" | KF32 | KF64 => "float"
+                           | KC64 | KC128 => "complex" | KStr => "string" end
+      | TP _ => "ptr" | TSl _ => "slice" | TAr _ _ => "array"
+      | TM _ _ => "map" | TSt _ => "struct" | _ => "?" end
+  | None => "?"
+  end.
+Definition kind_tag (k : okind) : string :=
+  match k with KStdlib => "stdlib" | KNatural => "natural" | KCompare => "compare" | KIll => "ill" end.
+
+Definition fail_verdict (guard : bool) (m : sexp) (tag : string) : verdict :=
+  {| v_known := true; v_model_ok := false; v_spec_ok := false; v_guard := guard; v_model := m; v_tag := tag |}.
+
+(* The generator answers requests for a compare function by assignability: an unnamed struct
+   type is served by the function of an identical named struct of the same package, so goderive
+   may accept a type the model of Compare refuses ([Unsup]).  Such calls lie outside the model
+   (and outside the guard of the theorems): they are counted, not judged. *)
+Definition is_unsup {A} (r : res A) : bool := match r with Unsup => true | _ => false end.
+Definition outside_model (tag : string) : verdict :=
+  {| v_known := true; v_model_ok := true; v_spec_ok := true; v_guard := false;
+     v_model := Sym "unsupported"; v_tag := tag ++ "/compare-outside-model" |}.
+
+(* ---------- sort ---------- *)
+Definition eval_sort (t : ty) (lst : val) (real : sexp) : verdict :=
+  match elems lst with
+  | None => bad_line
+  | Some es =>
+      let k := sort_kind [] t in
+      let f := less_by k [] t in
+      let le := fun a b => negb (tot (f b a)) in
+      let eqv := fun a b => (le a b && le b a)%bool in
+      let typed := has_type [] (TSl t) lst in
+      let guard := (typed && is_ok (status f es))%bool in
+      let m := sort_model isort [] t lst in
+      let shape :=
+        match es with
+        | [] => if is_nil_sl lst then "nil" else "empty"
+        | [_] => "single"
+        | _ => (if sorted_b le es then "sorted" else if sorted_b le (rev es) then "reversed" else "mixed")
+               ++ (if has_dup eqv es then "-dups" else "")
+        end in
+      let tag := "sort/" ++ kind_tag k ++ "/" ++ node_tag t ++ "/" ++ shape in
+      if is_unsup (status f es) then outside_model ("sort/" ++ kind_tag k ++ "/" ++ node_tag t) else
+      match match get_ret real with Some o => parse_val o | None => None end with
+      | None => fail_verdict guard (vres_sexp m) tag
+      | Some out =>
+          match elems out with
+          | None => fail_verdict guard (vres_sexp m) tag
+          | Some os =>
+              let spec := (multiset_eq (seq t) es os && is_ok (status f os) && sorted_b le os)%bool in
+              let mok := match m with
+                         | Ok mv => match elems mv with
+                                    (* nil vs empty of the result is no part of the property: not compared *)
+                                    | Some ms => all2b eqv ms os
+                                    | None => false
+                                    end
+                         | _ => false
+                         end in
+              {| v_known := typed; v_model_ok := mok; v_spec_ok := spec; v_guard := guard;
+                 v_model := vres_sexp m; v_tag := tag |}
+          end
+      end
+  end.
+
+(* ---------- keys ---------- *)
+Definition map_key_sexps (m : sexp) : option (list sexp) :=
+  match m with
+  | Sym s => if String.eqb s "nilm" then Some [] else None
+  | L [Sym s; Num _; L kvs] =>
+      if String.eqb s "m" then map_opt (fun kv => match kv with L [k; _] => Some k | _ => None end) kvs else None
+  | _ => None
+  end.
+Definition slice_sexps (o : sexp) : option (list sexp * list sexp) :=
+  match o with
+  | L [Sym s; Num _; L es; L sp] => if String.eqb s "sl" then Some (es, sp) else None
+  | _ => None
+  end.
+
+Definition size_tag (n : nat) : string :=
+  match n with
+  | O => "0" | 1%nat => "1" | 2%nat | 3%nat => "2-3"
+  | _ => if Nat.leb n 8 then "4-8" else "9+"
+  end.
+
+Definition eval_keys (t : ty) (msx : sexp) (real : sexp) : verdict :=
+  match parse_val msx, map_key_sexps msx, resolve [] t with
+  | Some m, Some kin, Some r =>
+      match r_node r with
+      | TM kt _ =>
+          let typed := has_type [] t m in
+          let mres := keys_model (fun l => l) 1%N m in
+          let isnil := match m with VNilM => true | _ => false end in
+          let tag0 := "keys/" ++ node_tag kt ++ "/" ++ (if isnil then "nil" else size_tag (List.length kin)) in
+          match get_res real with
+          | None => fail_verdict typed (vres_sexp mres) tag0
+          | Some (o, same) =>
+              match slice_sexps o, map_opt parse_val kin with
+              | Some (kout, spare), Some kinv =>
+                  match map_opt parse_val kout with
+                  | Some koutv =>
+                      let spec := (Nat.eqb (List.length koutv) (List.length kinv)
+                                   && forallb (fun k => Nat.eqb (List.length (filter (go_eqeq k) koutv)) 1) kinv)%bool in
+                      (* the capacity of the result is not compared: it is no part of the property *)
+                      let mok := (multiset_eq sexp_eqb kin kout && same)%bool in
+                      let inorder := all2b sexp_eqb kin kout in
+                      {| v_known := typed; v_model_ok := mok; v_spec_ok := spec; v_guard := typed;
+                         v_model := vres_sexp mres;
+                         v_tag := tag0 ++ (if Nat.leb (List.length kin) 1 then "" else if inorder then "/in-order" else "/permuted") |}
+                  | None => fail_verdict typed (vres_sexp mres) tag0
+                  end
+              | _, _ =>
+                  (* a nil slice for a map: holds the right keys only if the map is empty *)
+                  let nil_ok := (match o with Sym s => String.eqb s "nils" | _ => false end
+                                 && match kin with [] => true | _ => false end)%bool in
+                  {| v_known := typed; v_model_ok := (nil_ok && same)%bool;
+                     v_spec_ok := nil_ok;
+                     v_guard := typed; v_model := vres_sexp mres; v_tag := tag0 |}
+              end
+          end
+      | _ => bad_line
+      end
+  | _, _, _ => bad_line
+  end.
+
+(* ---------- min / max ---------- *)
+Fixpoint index_of (p : val -> bool) (l : list val) : option nat :=
+  match l with
+  | [] => None
+  | a :: l' => if p a then Some O else option_map S (index_of p l')
+  end.
+
+Definition eval_minmax (ismin : bool) (t : ty) (lst def : val) (real : sexp) : verdict :=
+  match elems lst with
+  | None => bad_line
+  | Some es =>
+      let k := minmax_kind [] t in
+      let f := if ismin then less_by k [] t else greater_by k [] t in
+      let typed := (has_type [] (TSl t) lst && has_type [] t def)%bool in
+      let guard := (typed && is_ok (status f es))%bool in
+      let m := if ismin then min_model [] t lst def else max_model [] t lst def in
+      let best := fun x => forallb (fun y => is_false (f y x)) es in
+      let shape :=
+        match es with
+        | [] => if is_nil_sl lst then "nil" else "empty"
+        | [_] => "single"
+        | _ => match m with
+               | Ok mv => match index_of best es with
+                          | Some O => "first"
+                          | Some i => if Nat.eqb (S i) (List.length es) then "last" else "middle"
+                          | None => "?"
+                          end ++ (if Nat.ltb 1 (List.length (filter best es)) then "-ties" else "")
+               | _ => "undefined"
+               end
+        end in
+      let tag := (if ismin then "min/" else "max/") ++ kind_tag k ++ "/" ++ node_tag t ++ "/" ++ shape in
+      if is_unsup (status f es) then outside_model ((if ismin then "min/" else "max/") ++ kind_tag k ++ "/" ++ node_tag t) else
+      match get_res real with
+      | None => fail_verdict guard (vres_sexp m) tag
+      | Some (o, same) =>
+          match parse_val o with
+          | None => fail_verdict guard (vres_sexp m) tag
+          | Some r =>
+              let spec := match es with
+                          | [] => seq t r def
+                          | _ => (existsb (seq t r) es && forallb (fun y => is_false (f y r)) es)%bool
+                          end in
+              let mok := (match m with Ok mv => seq t r mv | _ => false end && same)%bool in
+              {| v_known := typed; v_model_ok := mok; v_spec_ok := spec; v_guard := guard;
+                 v_model := vres_sexp m; v_tag := tag |}
+          end
+      end
+  end.
+
+Definition eval_minmax2 (ismin : bool) (t : ty) (a b : val) (real : sexp) : verdict :=
+  let k := minmax_kind [] t in
+  let f := if ismin then less_by k [] t else greater_by k [] t in
+  let typed := (has_type [] t a && has_type [] t b)%bool in
+  let guard := (typed && is_ok (status f [a; b]))%bool in
+  let m := if ismin then min2_model [] t a b else max2_model [] t a b in
+  let tag := (if ismin then "min2/" else "max2/") ++ kind_tag k ++ "/" ++ node_tag t ++ "/"
+             ++ (if tot (f a b) then "first" else if tot (f b a) then "second" else "tie") in
+  if is_unsup (status f [a; b]) then outside_model ((if ismin then "min2/" else "max2/") ++ kind_tag k ++ "/" ++ node_tag t) else
+  match get_res real with
+  | None => fail_verdict guard (vres_sexp m) tag
+  | Some (o, same) =>
+      match parse_val o with
+      | None => fail_verdict guard (vres_sexp m) tag
+      | Some r =>
+          let spec := ((seq t r a || seq t r b) && is_false (f a r) && is_false (f b r))%bool in
+          let mok := (match m with Ok mv => seq t r mv | _ => false end && same)%bool in
+          {| v_known := typed; v_model_ok := mok; v_spec_ok := spec; v_guard := guard;
+             v_model := vres_sexp m; v_tag := tag |}
+      end
+  end.
+
+(* ---------- which types the generators accept ---------- *)
+Definition eval_sup (op : string) (t : ty) (cls : string) : verdict :=
+  let sup := if String.eqb op "sort" then sort_sup t
+             else if String.eqb op "minmax" then minmax_sup t
+             else match resolve [] t with
+                  | Some r => match r_node r with TM _ _ => true | _ => false end
+                  | None => false
+                  end in
+  let real_ok := String.eqb cls "ok" in
+  let real_err := String.eqb cls "generator-error" in
+  let crash := (String.eqb cls "panic" || String.eqb cls "timeout")%bool in
+  (* accepted although the model of Compare refuses the type (see [outside_model]): not judged *)
+  let beyond := (negb sup && real_ok)%bool in
+  let ok := (crash || beyond || if sup then real_ok else real_err)%bool in
+  {| v_known := true; v_model_ok := ok; v_spec_ok := ok; v_guard := negb beyond;
+     v_model := Sym (if sup then "ok" else "generator-error");
+     v_tag := "support/" ++ op ++ "/" ++ (if crash then "generator-crash-see-C09"
+                                          else if beyond then "accepted-beyond-model"
+                                          else if sup then "supported" else "unsupported") |}.
+
+Definition eval13_calls (e : sexp) : verdict :=
+  match e with
+  | L [Sym k; tys; a; real] =>
+      match parse_ty tys with
+      | None => bad_line
+      | Some t =>
+          if String.eqb k "sort" then
+            match parse_val a with Some lst => eval_sort t lst real | None => bad_line end
+          else if String.eqb k "keys+" then eval_keys t a real
+          else bad_line
+      end
+  | L [Sym k; tys; a; b; real] =>
+      match parse_ty tys, parse_val a, parse_val b with
+      | Some t, Some x, Some y =>
+          if String.eqb k "min+" then eval_minmax true t x y real
+          else if String.eqb k "max+" then eval_minmax false t x y real
+          else if String.eqb k "min2+" then eval_minmax2 true t x y real
+          else if String.eqb k "max2+" then eval_minmax2 false t x y real
+          else bad_line
+      | _, _, _ => bad_line
+      end
+  | _ => bad_line
+  end.
+
+(* `(sup OP TY CLASS)` has four elements too; it is told apart by its head *)
+Definition eval13 (e : sexp) : verdict :=
+  match e with
+  | L [Sym k; Sym op; tys; Sym cls] =>
+      if String.eqb k "sup" then
+        match parse_ty tys with Some t => eval_sup op t cls | None => bad_line end
+      else eval13_calls e
+  | _ => eval13_calls e
+  end.
